@@ -140,9 +140,12 @@ def _blk_cases(rng, n, entry):
     for _ in range(n):
         kind = rng.choice(["int", "frac", "float", "sparse"])
         if entry == "kcovar":
-            ln = rng.choice([3, 4, 5, 6, 8, 10, 12, 16, 20])
-            fam = rng.choice(["noise", "noise", "noise", "decay", "grow", "zero", "sparse"])
+            ln = rng.choice([2, 3, 4, 5, 6, 8, 10, 12, 16, 20])
+            fam = rng.choice(["noise", "noise", "noise", "noise", "decay", "decay", "grow", "zero", "sparse"])
+            order = rng.choice([1, 1, 2, 2, 3, 3, 4, 5, 6, None, 0, ln, ln - 1])
             if fam == "noise":
+                if order not in (None, 0, ln, ln - 1) and rng.random() < 0.7:
+                    ln = max(ln, 5 * order + rng.randint(2, 8))    # long blocks: mostly |k| < 1
                 b = _blk(rng, ln, kind)
             elif fam == "decay":      # impulse response of a stable one/two pole filter: stable predictors
                 q = F(rng.choice([1, -1, 2, -2, 3]), 4)
@@ -162,7 +165,6 @@ def _blk_cases(rng, n, entry):
             else:
                 b = _blk(rng, ln, "sparse")
                 kind = "int"
-            order = rng.choice([1, 1, 2, 2, 3, 4, 5, None, 0, ln, ln - 1])
             if order is not None and order > 6 and order < ln:
                 order = 6
         else:
@@ -359,24 +361,26 @@ def _cmp_filter(c, io, drv, inputs, order, scale, spec_of):
     if "err" in io and io["err"].startswith("UNMAPPED"):
         return [("model", e + ": unmapped impl exception " + io["err"])], info
 
+    # exceptions that depend on lengths only (IndexError, ValueError of lag_matrix): empty trace
+    structural = "err" in model and not drv.get("trace")
+    if not safe and not structural:
+        # float regime, exact recursion on / within 1e-4 of one of its exits (zero divisor, |k| = 1):
+        # rounding decides which side the impl takes, and amplifies its error by 1/distance.  The
+        # property speaks of the exact recursion away from its zero divisors: nothing to compare
+        # unless both sides agree anyway.
+        if model.get("err") != io.get("err") or "err" not in model:
+            info["skipped"] = True
+        return out, info
+
     # --- impl <-> model -------------------------------------------------------------
     if "err" in model:
-        if io.get("err") == model["err"]:
-            pass
-        elif safe or "err" in io:
-            # a different exception, or a definite exit of the exact recursion that the impl misses
+        if io.get("err") != model["err"]:
             out.append(("model", "%s: model raises %s, impl gives %s" % (e, model["err"], _brief(io))))
-            if "err" in io or model["err"] in ("IndexError",) or exact:
-                out.append(("spec", "%s: exception differs (model %s, impl %s)" % (e, model["err"], _brief(io))))
-        else:
-            info["skipped"] = True      # float rounding keeps the impl off an exact zero divisor
+            out.append(("spec", "%s: exception differs (model %s, impl %s)" % (e, model["err"], _brief(io))))
     elif "err" in io:
-        if safe:
-            out.append(("model", "%s: impl raises %s, model returns a filter" % (e, io["err"])))
-            out.append(("spec", "%s: impl raises %s although the exact recursion meets no zero divisor "
-                                "(nearest relative distance %.3g)" % (e, io["err"], cond)))
-        else:
-            info["skipped"] = True
+        out.append(("model", "%s: impl raises %s, model returns a filter" % (e, io["err"])))
+        out.append(("spec", "%s: impl raises %s although the exact recursion meets no zero divisor "
+                            "(nearest relative distance %.3g)" % (e, io["err"], cond)))
     else:
         ia, ie = decl(io["a"]), dec(io["error"])
         ma, me = decl(model["a"]), dec(model["error"])
@@ -385,21 +389,18 @@ def _cmp_filter(c, io, drv, inputs, order, scale, spec_of):
         if not (_finite(ie) and all(_finite(x) for x in ia)):
             out.append(("model", e + ": non-finite output"))
             out.append(("spec", e + ": non-finite output"))
-        elif safe:
-            if exact:
-                if ia != ma:
-                    out.append(("model", "%s: coefficients differ: impl=%s model=%s" % (e, io["a"], model["a"])))
-                if ie != me:
-                    out.append(("model", "%s: error differs: impl=%s model=%s" % (e, io["error"], model["error"])))
-            else:
-                n = max(len(ia), len(ma))
-                if not common.close_list(_pad(ia, n), _pad(ma, n), tol):
-                    out.append(("model", "%s: coefficients differ: impl=%s model=%s" %
-                                (e, [float(x) for x in ia], [float(x) for x in ma])))
-                if not close(ie, me, tol * max(1, float(scale))):
-                    out.append(("model", "%s: error differs: impl=%r model=%r" % (e, float(ie), float(me))))
+        elif exact:
+            if ia != ma:
+                out.append(("model", "%s: coefficients differ: impl=%s model=%s" % (e, io["a"], model["a"])))
+            if ie != me:
+                out.append(("model", "%s: error differs: impl=%s model=%s" % (e, io["error"], model["error"])))
         else:
-            info["skipped"] = True
+            n = max(len(ia), len(ma))
+            if not common.close_list(_pad(ia, n), _pad(ma, n), tol):
+                out.append(("model", "%s: coefficients differ: impl=%s model=%s" %
+                            (e, [float(x) for x in ia], [float(x) for x in ma])))
+            if not close(ie, me, tol * max(1, float(scale))):
+                out.append(("model", "%s: error differs: impl=%r model=%r" % (e, float(ie), float(me))))
         # --- impl <-> spec: the Lean statement evaluated on the impl's own coefficients ----
         if drv.get("spec_impl") is not None and _finite(ie):
             out += spec_of(drv["spec_impl"], ia, ie, tol)
